@@ -10,6 +10,7 @@
 extern crate rustc_abi;
 extern crate rustc_driver;
 extern crate rustc_hir;
+extern crate rustc_index;
 extern crate rustc_interface;
 extern crate rustc_middle;
 extern crate rustc_session;
@@ -176,6 +177,7 @@ struct BodyDump<'a, 'tcx> {
     body: &'a Body<'tcx>,
     def: LocalDefId,
     tenv: TypingEnv<'tcx>,
+    promoted: Option<&'a rustc_index::IndexVec<Promoted, Body<'tcx>>>,
 }
 
 impl<'a, 'tcx> BodyDump<'a, 'tcx> {
@@ -262,8 +264,12 @@ impl<'a, 'tcx> BodyDump<'a, 'tcx> {
         if let Const::Unevaluated(uv, _) = c.const_ {
             if let Some(p) = uv.promoted {
                 let _ = write!(o, ",\"promoted\":{}", p.as_u32());
+                if let Some(pv) = self.promoted_value(p) {
+                    let _ = write!(o, ",\"pv\":{}", pv);
+                }
             } else {
                 let _ = write!(o, ",\"cdef\":{}", js(&self.cx.path(uv.def)));
+                let _ = write!(o, ",\"cargs\":{}", js(&self.cx.path_args(uv.def, uv.args)));
             }
         }
         // reference to a static
@@ -279,6 +285,69 @@ impl<'a, 'tcx> BodyDump<'a, 'tcx> {
         }
         o.push('}');
         o
+    }
+
+    /// value of a promoted constant, when its body is a simple chain of refs / constants / arrays
+    fn promoted_value(&self, p: Promoted) -> Option<String> {
+        let promoted = self.promoted?;
+        let pb = promoted.get(p)?;
+        let sub = BodyDump { cx: self.cx, body: pb, def: self.def, tenv: self.tenv, promoted: None };
+        sub.local_value(RETURN_PLACE, 0)
+    }
+
+    fn local_value(&self, l: Local, depth: usize) -> Option<String> {
+        if depth > 6 {
+            return None;
+        }
+        // the unique assignment to `l`
+        let mut found: Option<&Rvalue<'tcx>> = None;
+        for data in self.body.basic_blocks.iter() {
+            for st in &data.statements {
+                if let StatementKind::Assign(b) = &st.kind {
+                    let (pl, rv) = &**b;
+                    if pl.local == l && pl.projection.is_empty() {
+                        if found.is_some() {
+                            return None;
+                        }
+                        found = Some(rv);
+                    }
+                }
+            }
+        }
+        let rv = found?;
+        let opv = |op: &Operand<'tcx>| -> Option<String> {
+            match op {
+                Operand::Constant(c) => self.const_value(&c.const_, c.const_.ty()),
+                Operand::Copy(p) | Operand::Move(p) if p.projection.is_empty() => self.local_value(p.local, depth + 1),
+                _ => None,
+            }
+        };
+        match rv {
+            Rvalue::Use(op, ..) => opv(op),
+            Rvalue::Ref(_, _, p) if p.projection.is_empty() => self.local_value(p.local, depth + 1),
+            Rvalue::Cast(_, op, _) => opv(op),
+            Rvalue::Aggregate(kind, ops) => {
+                let tag = match &**kind {
+                    AggregateKind::Array(_) => "array".to_string(),
+                    AggregateKind::Tuple => "tuple".to_string(),
+                    AggregateKind::Adt(did, vidx, ..) => {
+                        let adt = self.cx.tcx.adt_def(*did);
+                        format!("{}::{}", self.cx.path(*did), adt.variant(*vidx).name)
+                    }
+                    _ => return None,
+                };
+                let mut s = format!("{{\"agg\":{},\"items\":[", js(&tag));
+                for (i, op) in ops.iter().enumerate() {
+                    if i > 0 {
+                        s.push(',');
+                    }
+                    s.push_str(&opv(op).unwrap_or_else(|| "null".into()));
+                }
+                s.push_str("]}");
+                Some(s)
+            }
+            _ => None,
+        }
     }
 
     fn const_value(&self, c: &Const<'tcx>, ty: Ty<'tcx>) -> Option<String> {
@@ -308,6 +377,36 @@ impl<'a, 'tcx> BodyDump<'a, 'tcx> {
                     return Some(format!("{}", si.to_int(size)));
                 }
                 return Some(format!("{}", si.to_bits(size)));
+            }
+            return None;
+        }
+        // type-level constants (match patterns): valtrees
+        if let Const::Ty(cty, ct) = c {
+            if let Some(val) = ct.try_to_value() {
+                if let ty::Ref(_, inner, _) = cty.kind() {
+                    if inner.is_str() {
+                        if let Some(bytes) = val.try_to_raw_bytes(tcx) {
+                            return Some(js(&String::from_utf8_lossy(bytes)));
+                        }
+                    }
+                    let is_bytes = match inner.kind() {
+                        ty::Array(e, _) | ty::Slice(e) => *e == tcx.types.u8,
+                        _ => false,
+                    };
+                    if is_bytes {
+                        if let Some(bytes) = val.try_to_raw_bytes(tcx) {
+                            let mut s = String::from("{\"bytes\":[");
+                            for (i, b) in bytes.iter().enumerate() {
+                                if i > 0 {
+                                    s.push(',');
+                                }
+                                let _ = write!(s, "{}", b);
+                            }
+                            s.push_str("]}");
+                            return Some(s);
+                        }
+                    }
+                }
             }
             return None;
         }
@@ -806,10 +905,10 @@ impl<'a, 'tcx> BodyDump<'a, 'tcx> {
     }
 }
 
-fn dump_body<'tcx>(tcx: TyCtxt<'tcx>, def: LocalDefId, body: &Body<'tcx>) {
+fn dump_body<'tcx>(tcx: TyCtxt<'tcx>, def: LocalDefId, body: &Body<'tcx>, promoted: Option<&rustc_index::IndexVec<Promoted, Body<'tcx>>>) {
     let cx = Cx { tcx, krate: tcx.crate_name(LOCAL_CRATE).to_string() };
     let tenv = TypingEnv::post_analysis(tcx, def.to_def_id());
-    let bd = BodyDump { cx: &cx, body, def, tenv };
+    let bd = BodyDump { cx: &cx, body, def, tenv, promoted };
     let s = bd.dump();
     BODIES.lock().unwrap().push((def.local_def_index.as_u32(), s));
 }
@@ -870,13 +969,18 @@ fn dump_crate<'tcx>(tcx: TyCtxt<'tcx>) -> String {
         if matches!(dk, DefKind::Const { .. } | DefKind::AssocConst { .. } | DefKind::Static { .. }) {
             continue;
         }
-        let (steal, _) = tcx.mir_promoted(def);
+        let (steal, prom) = tcx.mir_promoted(def);
         if steal.is_stolen() {
             missing.push(cx.path(def.to_def_id()));
             continue;
         }
         let b = steal.borrow();
-        dump_body(tcx, def, &b);
+        if prom.is_stolen() {
+            dump_body(tcx, def, &b, None);
+        } else {
+            let pb = prom.borrow();
+            dump_body(tcx, def, &b, Some(&*pb));
+        }
     }
     o.push_str(",\"missing\":[");
     for (i, m) in missing.iter().enumerate() {
@@ -1083,10 +1187,15 @@ fn my_elab<'tcx>(tcx: TyCtxt<'tcx>, def: LocalDefId) -> &'tcx rustc_data_structu
     {
         let dk = tcx.def_kind(def);
         if matches!(dk, DefKind::Fn | DefKind::AssocFn | DefKind::Closure | DefKind::SyntheticCoroutineBody) {
-            let (steal, _) = tcx.mir_promoted(def);
+            let (steal, prom) = tcx.mir_promoted(def);
             if !steal.is_stolen() {
                 let b = steal.borrow();
-                dump_body(tcx, def, &b);
+                if prom.is_stolen() {
+                    dump_body(tcx, def, &b, None);
+                } else {
+                    let pb = prom.borrow();
+                    dump_body(tcx, def, &b, Some(&*pb));
+                }
             }
         }
     }
